@@ -90,16 +90,17 @@ PLAN = {
         "engine": "verus-extract + kani-scratch",
         "technique": "contract-based deductive verification: Verus proof of the real ReplaceSource::source splice loop against the reference replacement model; Kani Hoare-triple harnesses {Inv} method {Inv} on the real mutators / sorted_replacement / clone (bounded n)",
         "claim": "Unbounded proof: for every inner text (UTF-8, < 4 GiB) and every replacement list with start <= end on char boundaries or beyond the end, "
-                 "the real ReplaceSource::source returns splice(inner, replacements in stable (start, end, enforce) order) - the property's reference model. "
+                 "the real ReplaceSource::source returns splice(inner, replacements in stable (start, end, enforce) order) - the property's reference model; "
+                 "ReplaceSource::rope renders to the same splice over assumed contracts of five Rope methods, and size() is its length. "
                  "History independence: the lazy-sort representation invariant (is_sorted => sorted_index is the stable key order) is established by new and preserved by every mutator, "
                  "by sorted_replacement and by clone from an arbitrary invariant state (Kani on the real methods; bounded: n <= 2 replacements held, n <= 3 thorough).",
         "note": "The Verus unit uses sorted_replacement's contract (result = stable key order); the Kani stage checks that contract on the real method, bounded in n. "
                 "The two formulations of the order predicate (Verus stable_sorted_idx / Rust is_stable_sorted) are a trust point. Cow/str indexing through 3 assume_specifications.",
         "trusted_base": TB_VERUS + ["assume_specification: <str as Index<I>>::index (exposes vstd's own index_postcondition), <Cow<B> as Deref>::deref (uninterpreted function of the Cow), "
                                     "<Cow<str> as From<String>>::from (holds that string)", "external_body: sorted_replacement with the stable-order contract",
-                                    "rules D2 D3 D5 F1 L1"],
+                                    "rules D2 D3 D5 D6 F1 L1 G1", "external_body Rope type with assumed contracts for new/len/byte_slice/append/add (statements of C16)"],
         "assumptions": ["inner.source() is a function of the inner object (trait-level spec view `text()`)", "inner text < 4 GiB", "sum of content lengths fits usize (capacity hint dropped by D3)"],
-        "not_covered": ["rope() (Rope code)", "map()/stream_chunks of ReplaceSource", "n > 3 replacements for the itertools sort (bounded Kani stage)"],
+        "not_covered": ["rope.rs itself (Rope::new/len/byte_slice/append/add enter rope() as assumed contracts)", "buffer()/to_writer() (Cow pattern match, dyn Write)", "map()/stream_chunks of ReplaceSource", "n > 3 replacements for the itertools sort (bounded Kani stage)"],
         "design_ref": "DESIGN.md §4/C05",
     },
     "C14": {
